@@ -192,7 +192,8 @@ def run_case(case: dict) -> dict:
         if "crosstalk" in excl:
             # only crosstalk INSIDE one program is the known finding; a site in the combined build
             # whose emitters come from both programs is exactly what this property forbids
-            if has_known_structure(wp, tw.obs[1], memory) or has_known_structure(wq, tw.obs[2], memory):
+            if (has_known_structure(wp, tw.obs[1], memory, P["stmts"], P["inputs"])
+                    or has_known_structure(wq, tw.obs[2], memory, Q["stmts"], Q["inputs"])):
                 res["status"] = "excluded"
                 res["excluded_by"] = "crosstalk"
                 return res
@@ -206,6 +207,10 @@ def run_case(case: dict) -> dict:
                     return res
             from ..diagnose import crosstalk_sites
 
+            from ..static_trigger import crosstalk_possible
+
+            can = {"P": crosstalk_possible(P["stmts"], P["inputs"]),
+                   "Q": crosstalk_possible(Q["stmts"], Q["inputs"])}
             labels = {n: k for k, v in tw.obs[0].inputs.items() for n in v}
             intra = False
             for (_reader, _sig, who) in crosstalk_sites(wc, [], labels, memory_ok=memory):
@@ -213,8 +218,10 @@ def run_case(case: dict) -> dict:
                 for n in who:
                     d = wc.ents[n].desc or ""
                     owners.add("Q" if (" q_" in d or "computing q_" in d or d.startswith("q_") or "mem:mem_q_" in d) else "P")
-                if len(owners) == 1:
+                if len(owners) == 1 and can[next(iter(owners))]:
                     intra = True
+                elif len(owners) == 1:
+                    probe(res, "crosstalk_structure_without_static_trigger")
                 else:
                     probe(res, "cross_program_site_kept")
             if intra:
